@@ -507,6 +507,9 @@ class PyExec:
                 return PNone()
         if n.id in ("True", "False"):
             return PBool(n.id == "True")
+        if n.id in self.opt.get("opaque_names", ()):
+            # a module-level function / object only passed around (never called or inspected by the subject)
+            return POpaque(intern_id("name:" + n.id))
         raise OutOfSubset("name %s" % n.id)
 
     def ev_Tuple(self, st, n):
@@ -607,6 +610,13 @@ class PyExec:
                 r = st.heap.mem(b.addr, ival(a))
             elif isinstance(b, PRef) and b.cls == "dict":
                 r = st.heap.has(b.addr, ival(a))
+            elif isinstance(b, PStr) and b.text is not None and isinstance(a, PAny) and self.opt.get("string_universe"):
+                # substring test `x in "<constant>"` for a string-valued cell x: strings are interned ids, so the test is
+                # decided over the finite universe of strings the contract says the cell can hold (obligation: it does)
+                uni = list(self.opt["string_universe"])
+                self.oblige(st, "subset", "string_cell_within_declared_universe", z3.Or(*[a.t == intern_id(u) for u in uni]), n)
+                hits = [a.t == intern_id(u) for u in uni if u in b.text]
+                r = z3.Or(*hits) if hits else z3.BoolVal(False)
             else:
                 raise OutOfSubset("`in` on %s" % b.kind)
             return r if isinstance(op, ast.In) else z3.Not(r)
@@ -639,6 +649,11 @@ class PyExec:
             if isinstance(o, POpt):
                 return o.is_none
             return z3.BoolVal(False)
+        if isinstance(a, PRef) and isinstance(b, PRef) and self.opt.get("eq_uf"):
+            # user-defined __eq__ on opaque objects: an uninterpreted relation, reflexive (identical objects are equal)
+            f = z3.Function("obj_eq", IntSort, IntSort, z3.BoolSort())
+            st.path.append(z3.Implies(a.addr == b.addr, f(a.addr, b.addr)))
+            return f(a.addr, b.addr)
         if isinstance(a, PTuple) and isinstance(b, PTuple):
             if len(a.items) != len(b.items):
                 return z3.BoolVal(False)
@@ -678,7 +693,14 @@ class PyExec:
         return PStr(codes)
 
     def ev_Attribute(self, st, n):
+        mods = self.opt.get("modules", {})
+        if isinstance(n.value, ast.Name) and n.value.id in mods and n.value.id not in st.vars:
+            # Module.attr: a singleton object of the class the contract names (distinct attributes <-> distinct objects)
+            return PRef(mods[n.value.id], intern_id("%s.%s" % (n.value.id, n.attr)))
         o = self.ev(st, n.value)
+        if isinstance(o, POpt):
+            self.guard(st, "AttributeError.None", z3.Not(o.is_none), n)
+            o = o.ref
         if isinstance(o, PRef) and o.cls.startswith("obj:"):
             kind = self.field_kind(o.cls, n.attr)
             t = st.heap.fld(n.attr, o.addr)
